@@ -214,9 +214,16 @@ func checkpointKey(c *core.Ctx) {
 		}) {
 			n++
 			r := p.Node().(*ast.ReturnStmt)
-			same := pat.Same(dinfo, strip(dinfo, r.Results[1]), strip(dinfo, bd["_cand"].(ast.Expr)))
-			c.Check("R4.range", "pickSuffixDfs/slot-of-candidate", r.Pos(), same,
-				fmt.Sprintf("the string returned as checkpoint key (%s) must be the one whose slot was computed (%s): otherwise the checkpoint may live on another shard than the data it describes", c.Src(r.Results[1]), c.Src(bd["_cand"])))
+			ret, cand := strip(dinfo, r.Results[1]), strip(dinfo, bd["_cand"].(ast.Expr))
+			switch {
+			case pat.Same(dinfo, ret, cand):
+				c.Okf("R4.range", "pickSuffixDfs/slot-of-candidate", r.Pos(), "the string returned is the one whose slot was computed (%s)", c.Src(cand))
+			case objOf(dinfo, ret) == nil && objOf(dinfo, cand) != nil && mentions(dinfo, ret, objOf(dinfo, cand)):
+				c.Check("R4.range", "pickSuffixDfs/slot-of-candidate", r.Pos(), false,
+					fmt.Sprintf("the string returned as checkpoint key (%s) is a different function of the candidate than the one whose slot was computed (%s): the checkpoint may live on another shard than the data it describes", c.Src(r.Results[1]), c.Src(cand)))
+			default:
+				c.Undecidedf("R4.range", "pickSuffixDfs/slot-of-candidate", r.Pos(), "cannot relate the returned string %s to the candidate %s", c.Src(ret), c.Src(cand))
+			}
 			okJ := false
 			if judgeParam != nil {
 				b2 := pat.Binds{"_j": judgeParam, "_slot": bd["_slot"]}
@@ -296,37 +303,24 @@ func checkpointKey(c *core.Ctx) {
 				"nothing in the filter package tests strings.HasPrefix(key, CheckpointKey): the per-shard checkpoint keys (CheckpointKey-xxxx chosen by ChoseSlotInRange) pass the key filter and are synced as user data")
 		}
 	}
+	// every verdict other than "rejected" is reached only after the prefix test failed
 	k := 0
 	for _, p := range fg.Points(func(n ast.Node) bool {
-		hit := false
-		ast.Inspect(n, func(m ast.Node) bool {
-			if v := core.FieldOf(finfo, exprOf(m)); v != nil && strings.HasPrefix(v.Name(), "FilterKey") {
-				hit = true
-			}
-			return true
-		})
-		return hit
+		r, ok := n.(*ast.ReturnStmt)
+		return ok && !(len(r.Results) == 1 && isTrue(finfo, r.Results[0]))
 	}) {
 		k++
 		ok, w := onlyVia(fg, p, func(f cfgq.Fact) bool { return !f.Val && isPrefixTest(f.Expr) })
 		if ok || found {
-			c.Check("R4.filter", "FilterKey/prefix-before-lists", p.Node().Pos(), ok,
-				"the CheckpointKey-prefix rejection must come before any white/blacklist decision: a whitelist matching the checkpoint key would let it through", w...)
+			c.Check("R4.filter", "FilterKey/prefix-before-pass", p.Node().Pos(), ok,
+				"FilterKey can let a key pass without first having rejected the CheckpointKey prefix: with a whitelist (or no blacklist entry) matching it, the per-shard checkpoint key is synced as user data", w...)
 		} else {
-			c.Undecidedf("R4.filter", "FilterKey/prefix-before-lists", p.Node().Pos(), "no CheckpointKey-prefix test seen before the key lists are consulted")
+			c.Undecidedf("R4.filter", "FilterKey/prefix-before-pass", p.Node().Pos(), "no CheckpointKey-prefix test seen before this verdict")
 		}
 	}
 	if k == 0 {
-		c.Undecidedf("R4.filter", "FilterKey/prefix-before-lists", filterKey.Decl.Pos(), "FilterKey consults no key list")
+		c.Undecidedf("R4.filter", "FilterKey/prefix-before-pass", filterKey.Decl.Pos(), "FilterKey never lets a key pass")
 	}
-}
-
-func exprOf(n ast.Node) ast.Expr {
-	e, _ := n.(ast.Expr)
-	if e == nil {
-		return &ast.Ident{Name: "_"}
-	}
-	return e
 }
 
 func latencyKey(c *core.Ctx, crcFn *core.Fn) {
@@ -363,8 +357,11 @@ func latencyKey(c *core.Ctx, crcFn *core.Fn) {
 	isRet := func(n ast.Node) bool { _, ok := n.(*ast.ReturnStmt); return ok }
 	for _, p := range g.Points(isRet) {
 		r := p.Node().(*ast.ReturnStmt)
-		c.Check("R5.latency", "findKeyInRange/slot-of-returned-key", r.Pos(), len(r.Results) == 1 && pat.Same(info, r.Results[0], cand),
-			fmt.Sprintf("the key returned (%s) must be the one whose slot was tested (%s): otherwise the latency probe is written to another shard", c.Src(r), c.Src(cand)))
+		if len(r.Results) == 1 && pat.Same(info, r.Results[0], cand) {
+			c.Okf("R5.latency", "findKeyInRange/slot-of-returned-key", r.Pos(), "the key returned is the one whose slot was tested (%s)", c.Src(cand))
+		} else {
+			c.Undecidedf("R5.latency", "findKeyInRange/slot-of-returned-key", r.Pos(), "cannot relate the returned key %s to the tested one %s", c.Src(r), c.Src(cand))
+		}
 	}
 	inclusive(c, "R5.latency", "findKeyInRange", g, fn.Decl.Body, slotVar, params[0], params[1], isRet)
 	// the synthetic key has no hash tag, so hashing the whole key is the specification's slot
@@ -386,4 +383,15 @@ func latencyKey(c *core.Ctx, crcFn *core.Fn) {
 			})
 		}
 	}
+}
+
+func mentions(info *types.Info, n ast.Node, o types.Object) bool {
+	hit := false
+	ast.Inspect(n, func(m ast.Node) bool {
+		if id, ok := m.(*ast.Ident); ok && info.Uses[id] == o {
+			hit = true
+		}
+		return true
+	})
+	return hit
 }
